@@ -44,7 +44,7 @@ FAULT_KINDS = ["same_name_other_instance", "fea_do_log_h",
                "caller_reuses_matrix_buffer", "derived_instance_object",
                "concurrent_runs_on_one_algorithm_object",
                "create_returns_garbage", "algorithm_object_reused", "warm_start:full", "warm_start:wrapper", "via:for_fes",
-               "via:from_starting_point",
+               "via:from_starting_point", "via:after_exhausted_stage",
                "cancel:before_first_move", "cancel:mid_run", "draw:i0",
                "draw:jmax", "draw:equal", "draw:full_reversal",
                "draw:adjacent", "draw:repeat", "draw:uniform"]
@@ -213,8 +213,17 @@ def _generate(rng: random.Random, batch: dict) -> dict:
         r = rng.random()
         if r < 0.6:
             inst["caller"] = {"src": rng.choice(["auto", "auto", "int64",
-                                                 "int32", "fortran"]),
+                                                 "int32", "fortran",
+                                                 "float32", "float64"]),
                               "reuse": rng.choice(["scale", "zero"])}
+            if inst["caller"]["src"] == "float32" and algo == "ea":
+                # whole numbers that float32 holds exactly, but whose sums
+                # it does not: bounds must be computed in exact arithmetic
+                m = [[0] * n for _ in range(n)]
+                for i in range(n):
+                    for j in range(i + 1, n):
+                        m[i][j] = m[j][i] = rng.randint(2 ** 23, 2 ** 24 - 1)
+                inst["matrix"] = m
         else:
             inst["caller"] = {"derive": rng.choice(["scaled", "edited",
                                                     "copy"])}
@@ -272,7 +281,8 @@ def _generate(rng: random.Random, batch: dict) -> dict:
                     if batch.get("long") else rng.choice(
                         [1, 2, 3, 10, 50, batch["max_moves"]]),
                     "via": rng.choice(["plain", "plain", "for_fes",
-                                       "from_starting_point"])})
+                                       "from_starting_point",
+                                       "after_exhausted_stage"])})
     return doc
 
 
@@ -344,8 +354,15 @@ def _build(doc, name: str = "sim"):
             # the caller hands over a buffer of its own (possibly already of
             # the type and layout the instance stores) and re-uses it later
             dt = {"auto": inst.dtype, "int64": np.int64,
-                  "int32": np.int32, "fortran": inst.dtype}[caller["src"]]
-            if max(max(r) for r in matrix) > np.iinfo(dt).max:
+                  "int32": np.int32, "fortran": inst.dtype,
+                  "float32": np.float32, "float64": np.float64}[
+                      caller["src"]]
+            biggest = max(max(r) for r in matrix)
+            if np.issubdtype(dt, np.floating):
+                # whole numbers that the type represents exactly
+                if biggest >= 2 ** (24 if dt == np.float32 else 53):
+                    dt = np.int64
+            elif biggest > np.iinfo(dt).max:
                 dt = np.int64
             src = np.array(matrix, dtype=dt,
                            order="F" if caller["src"] == "fortran" else "C")
@@ -908,7 +925,27 @@ def _execute_single(doc: dict, shared: dict) -> dict:
                 return getattr(self._p, name)
 
             def evaluate(self, x):
+                # (budget used up or goal reached: read without polling,
+                # which would tell the process that the algorithm knows)
+                spent = int(self._p.get_consumed_fes()) >= int(
+                    doc["max_fes"]) or bool(
+                        getattr(self._p, "_terminated", False))
                 v = self._p.evaluate(x)
+                if spent:
+                    # the process had ended before this call: moptipy then
+                    # answers with the best value it knows, not with the
+                    # length of x - that value is the process's, only the
+                    # tour is the algorithm's
+                    xs = [int(q) for q in x]
+                    if not orc.is_permutation(xs, n):
+                        core.violation(
+                            res, "handover-not-a-permutation",
+                            f"evaluate: x={xs}; matrix={matrix}")
+                        raise _Stop
+                    state["cur"], state["cur_len"] = xs, orc.tour_length(
+                        matrix, xs)
+                    res["events"].append(["eval-after-budget"])
+                    return v
                 try:
                     xs, true = check_handover(x, v, "evaluate")
                 except _Stop:
@@ -931,6 +968,19 @@ def _execute_single(doc: dict, shared: dict) -> dict:
         class Spy(Algorithm):
             def solve(self, process):
                 if via == "plain":
+                    algo.solve(Proxy(process))
+                    return
+                if via == "after_exhausted_stage":
+                    # second stage of a sequential hybrid whose first stage
+                    # used up the whole budget without ever asking
+                    # should_terminate(): the process is terminated, the
+                    # algorithm has not been told yet
+                    x0 = process.create()
+                    x0[:] = range(n)
+                    for _ in range(int(doc["max_fes"])):
+                        process.get_random().shuffle(x0)
+                        process.evaluate(x0)
+                    state["cur"], state["cur_len"] = None, None
                     algo.solve(Proxy(process))
                     return
                 # the algorithm is applied as a local search to a process
